@@ -250,8 +250,9 @@ def firstExtremum (lt : Rat → Rat → Bool) (a : Spec.Fn Rat) (r c i j : Nat) 
     if p < i || (p == i && q < j) then lt (a p q) (a i j)      -- earlier entries are strictly worse
     else !(lt (a i j) (a p q))                                  -- no entry is strictly better
 
-/-- iterations granted to each of the three open loops of `Lap.lapFull` -/
-def lapFuel : Nat := 100000
+/-- iterations granted to each of the three open loops of `Lap.lapFull`: the bound of
+`lap_full_fuel_suffices` (`Props/C04Lap.lean`) -/
+def lapFuel (n : Nat) : Nat := n * n + n + 1
 
 /-- what the harness prints for `lap` -/
 def showLap (n : Nat) (a : Lap.Full Float) : String :=
@@ -264,7 +265,7 @@ def showLap (n : Nat) (a : Lap.Full Float) : String :=
 /-- the exact-arithmetic (`Rat`) instantiation of the transcription gives the same answer as its
 `Float` instantiation (integer costs: every double operation of the routine is exact) -/
 def lapRatAgrees (n : Nat) (c : Nat → Nat → Rat) (a : Lap.Full Float) : Bool :=
-  match Lap.lapFull (α := Rat) lapFuel n c (fun _ => -7) (fun _ => -7) (fun _ => 99) (fun _ => 99) with
+  match Lap.lapFull (α := Rat) (lapFuel n) n c (fun _ => -7) (fun _ => -7) (fun _ => 99) (fun _ => 99) with
   | .ok b => (Lap.allLt n fun i =>
       decide (a.rowSol i = b.rowSol i) && decide (a.colSol i = b.colSol i) && decide (toRat (a.u i) = b.u i)
         && decide (toRat (a.v i) = b.v i) && finite (a.u i) && finite (a.v i))
@@ -526,7 +527,7 @@ def stepUnary (st : St) (w : String) (rest : List String) (impl : Option (List S
     let d := dimsOf st.kA M
     let out :=
       if d.1 != d.2 then "exc:bpp" else
-      match Lap.lapFull lapFuel d.1 (fun i j => M.at i j) (fun _ => -7) (fun _ => -7) (fun _ => 99.0) (fun _ => 99.0) with
+      match Lap.lapFull (lapFuel d.1) d.1 (fun i j => M.at i j) (fun _ => -7) (fun _ => -7) (fun _ => 99.0) (fun _ => 99.0) with
       | .ok a =>
         -- integer costs below 2^40: the exact (`Rat`) instantiation must give the same answer
         let cmax := M.a.foldl (fun m x => max m (rabs (toRat x))) 0
